@@ -21,7 +21,8 @@ REF = {
     "BoundedSum": lambda a, b: min(1.0, a + b),
     "DrasticSum": lambda a, b: max(a, b) if min(a, b) == 0.0 else 1.0,
     "EinsteinSum": lambda a, b: (a + b) / (1.0 + a * b),
-    "HamacherSum": lambda a, b: 1.0 if a * b == 1.0 else (a + b - 2.0 * a * b) / (1.0 - a * b),
+    # the quotient is ill-conditioned next to (1,1); in real arithmetic it lies in [max(a,b), 1], so the model clamps it there
+    "HamacherSum": lambda a, b: 1.0 if a * b == 1.0 else min(1.0, max(a, b, (a + b - 2.0 * a * b) / (1.0 - a * b))),
     "Maximum": lambda a, b: max(a, b),
     "NilpotentMaximum": lambda a, b: max(a, b) if a + b < 1.0 else 1.0,
     "NormalizedSum": lambda a, b: (a + b) / max(1.0, a + b),
